@@ -469,7 +469,7 @@ def set_features(pred, res, args):
     return f
 
 
-def set_check(work, binary, verdict, stats, tier, seed):
+def set_check(work, binary, verdict, stats, tier, seed, only=None):
     rnd = random.Random(seed)
     ncfg, ntab = 82944, 513
     n_rich, n_rand = (5000, 3000) if tier == "quick" else (82944, 50000)
@@ -479,7 +479,7 @@ def set_check(work, binary, verdict, stats, tier, seed):
         rich = [c for c in rich if c % 8 == off]     # a stride over the mixed-radix digits: every option of every dimension occurs
         rich = sorted(rnd.sample(rich, n_rich))
     picks = rich + [rnd.randrange(ncfg) + ncfg * rnd.randrange(1, ntab) for _ in range(n_rand)]
-    picks = sorted(set(picks))
+    picks = sorted(set(picks)) if only is None else list(only)
     put(work, "GatherSetRun.tla", "---- MODULE GatherSetRun ----\nEXTENDS GatherSetGen\nPicksDef == <<%s>>\n====\n" % ", ".join(map(str, picks)))
     put(work, "GatherSetRun.cfg", 'CONSTANTS\n  Picks <- PicksDef\n  OutFile = "cases.ndjson"\nINIT Init\nNEXT Next\n')
     tmo = 900 if tier == "quick" else 2400
@@ -566,6 +566,26 @@ def c18(tier, seed):
         "the mDNS-gather clause is checked through the candidate address (name instead of IP); mDNS multicast traffic itself is scoped out",
         "with a single-port range and server-reflexive gathering enabled no UDP host candidate is required (the agent's own sockets compete for the port)"]
     return verdict.finish()
+
+
+def replay(rp):
+    """Re-run one recorded scenario (C09, C18 cycle half, C08 gather batch) or one candidate-set case (C18) and re-judge its predicate."""
+    prop = rp["property"]
+    verdict = v.Verdict(prop, "quick", 0)
+    stats = new_stats()
+    with v.Work("replay") as work:
+        work.copy_specs("gather")
+        binary = v.build_harness(work, pkg="gather")
+        if "scenario" in rp:
+            judge_scenarios(work, binary, verdict, stats, [dict(rp["scenario"])], [rp["predicate"]], "replay",
+                            lambda p, sc, recs, li, rid: {"predicate": p}, conform=False)
+        else:
+            set_check(work, binary, verdict, stats, "quick", 0, only=[rp["case"]["id"]])
+    for feat, p in verdict.violations:
+        print("VIOLATION property=%s replay=%s" % (prop, p))
+    for kid, (what, cnt) in verdict.known_hits.items():
+        print("KNOWN-FINDING: property=%s %s" % (prop, what))
+    return 1 if verdict.violations else 0
 
 
 PLANS = {"C09": c09, "C18": c18}
